@@ -53,7 +53,13 @@ impl LmCfg {
 }
 
 pub fn lm_strategy(max_patience: usize) -> impl Strategy<Value = LmCfg> {
-    (any::<u16>(), any::<u16>(), any::<u16>(), any::<u16>(), any::<u16>(), any::<bool>()).prop_map(move |(pt, f, x, g, sb, sd)| {
+    (any::<u16>(), any::<u16>(), any::<u16>(), any::<u16>(), any::<u16>(), any::<bool>()).prop_map(move |raw| lm_from_raw(max_patience, raw))
+}
+
+/// the pure construction behind `lm_strategy`
+pub fn lm_from_raw(max_patience: usize, raw: (u16, u16, u16, u16, u16, bool)) -> LmCfg {
+    {
+        let (pt, f, x, g, sb, sd) = raw;
         let tols = [-1.0, 0.0, 1e-8, 1e-3, 1e-1];
         let pick = crate::engine::pick;
         // small patience over-sampled
@@ -66,7 +72,7 @@ pub fn lm_strategy(max_patience: usize) -> impl Strategy<Value = LmCfg> {
             stepbound: 10f64.powf(-2.0 + 5.0 * (sb as f64 / 65536.0)),
             scale_diag: sd,
         }
-    })
+    }
 }
 
 pub struct DriveInfo<T: Sc> {
